@@ -20,7 +20,7 @@ CHECKS = {
          "Every keyword and universe identifier as last path element / ImportName / ImportAlias, with and without prefix, alone and against 1-3 competitors, numbered fall-backs with 8-129 competitors, and every last path element of 1-3 pieces over 10 character classes (complete enumeration, 8,968 cases), plus random multisets of paths competing for one base name; names must be unique, identifiers, and not reserved.",
          TB, "5 C05"),
  "C06": ("exploration", "runtime monitor: go/types resolution of bare identifiers through dot imports / local declarations; import spec inspection",
-         "Scenarios biased to local paths (NewFilePath, NewFilePathName), near-misses of the local path, 0-n dot imports, prefix; bare identifiers must resolve through `import . \"p\"` or to the local package, near-misses must be imported normally.",
+         "Scenarios biased to local paths (NewFilePath, NewFilePathName), near-misses of the local path, 0-n dot imports, prefix; bare identifiers must resolve through `import . \"p\"` or to the local package, near-misses must be imported normally. Every third scenario is also built in two stages (hints and references of half of the paths after a first, unjudged render) and judged by the same oracle.",
          TB, "5 C06"),
  "C07": ("exploration", "runtime monitor: byte equality of repeated fresh constructions in-process (K=32/96) and across child processes; probe nodes record the map iteration orders jennifer's loops actually took",
          "Recipes rich in maps (Dicts with colliding qualified keys, nested Dicts, Tags incl. case-variant keys, ImportNames/Anon tables, import scenarios) are rebuilt and rendered many times and in 4/16 child processes; all outputs must be byte-identical. Map orders cannot be forced; the evidence reports the distinct orders observed.",
@@ -50,7 +50,7 @@ CHECKS = {
          "Random histories over a tree of cloned Statement handles (incl. clones of still-empty originals) with capacity-aware appends; after every step every handle is rendered (Render and inside a File) and tokenised; an unmodified clone must equal its original at every step (2,500 / 30,000 histories; the thorough tier runs under the race detector); 25 fixed non-expression originals (case clauses, comments, tags, Dicts, Line) whose clones must render identically and extend like the original.",
          TB, "5 C20"),
  "C01": ("exploration", "runtime monitor: per-program round trip — go/ast transcribed into DSL calls, rendered by the real code, re-parsed, normalised AST compared with the source AST declaration by declaration",
-         "Every file of the vendored corpus, /repo, GOROOT/src (sample in quick, all in thorough), go1.26 src and the module cache (thorough, two translator seeds, ~100k files / ~2M declarations) plus generated programs; choice among equivalent documented spellings is randomised. For odd translator seeds expressions are built through Clone templates; cgo preambles are translated; one file in eight is also written with Save over an older, longer version and read back. Sampled over programs, nothing is proved.",
+         "Every file of the vendored corpus, /repo, GOROOT/src (sample in quick, all in thorough), go1.26 src and the module cache (thorough, two translator seeds, ~100k files / ~2M declarations) plus generated programs; choice among equivalent documented spellings is randomised. For odd translator seeds expressions are built through Clone templates; cgo preambles are translated; one file in eight is also written with Save over an older, longer version and read back; half of the binary expressions are built flat (operand tokens in one statement). Sampled over programs, nothing is proved.",
          TB + " Normalisations limited to comments, layout, redundant parentheses, empty statements and Dict's documented reordering.", "5 C01"),
  "C14": ("exploration", "runtime monitor: byte equality of renders across forms enumerated from the API at check time (apigen + reflection), instrumented callbacks (count, phase flag, goroutine id)",
          "All ~120 constructors x 150/4,000 generated argument lists: function / Statement method (empty and non-empty receiver) / Group method (appended and returned) / ...Func variant; GoString vs Render vs RenderWithFile(fresh File); callbacks exactly once, inside the constructing call, never at render; empty callbacks followed by chained tokens, Group forms given the same arguments twice, zero Options; corpus programs with a random form per node.",
